@@ -3,8 +3,14 @@ Model of `mchap/application/atomize.py` (`format_vcf_snv_block` and the function
 haplotype record: `get_haplotype_snvs`, `get_haplotype_snv_indices`, `format_snv_alleles`, `get_sample_snv_GT`,
 `get_sample_snv_ACP`, `get_sample_snv_depth`, `format_allele_floats` (its failure on an empty allele axis), PS / POS / ID.
 
-The code's exceptions are explicit outcomes (`Except Err`): the model mirrors the code as it is, including the
-two crashes of candidate defects F8 (no ALT) and F9 (a site without alternative base).
+The code's remaining exceptions are explicit outcomes (`Except Err`); they are reachable only from inputs that
+are not haplotype VCFs of the calling programs (an SNVPOS entry outside a haplotype, a GT naming an unlisted
+haplotype, more posterior counts than haplotypes, more than four bases at a site, ragged SNVDP).
+Since the repairs of F8 / F9 / the AF0 defects the block is total on every record shape the programs produce:
+a missing ALT is an empty list of alternate haplotypes, a site without alternative base is printed with ALT `.`
+and `.` for every A-length value, a `.` inside FORMAT/ACP or AFP makes the sample's counts missing, a missing SQ
+is printed as `.`.  (Before: `len(None)` -> TypeError, empty allele axis -> IndexError, `float += None` ->
+TypeError, PQ printed as the text `None`.)
 Numbers are exact rationals; decimal rendering is `MCHap.Vcf.vcfstrArrayElem` (C07) and not repeated here.
 
 Core Lean only.
@@ -12,13 +18,11 @@ Core Lean only.
 namespace MCHap.Atomize
 
 inductive Err
-  | typeError    -- `len(None)`, `float += None`, `None * int`
   | indexError   -- index beyond an axis
   | valueError   -- ragged SNVDP
   deriving Repr, DecidableEq
 
 def Err.name : Err → String
-  | .typeError => "TypeError"
   | .indexError => "IndexError"
   | .valueError => "ValueError"
 
@@ -60,12 +64,10 @@ def basesAt (seq : List Char) (snvpos : List Nat) : Except Err (List Char) :=
     | some c => .ok c
     | none => .error .indexError) snvpos
 
-/-- `get_haplotype_snvs`: rows = REF then the ALTs, columns = the SNVPOS sites.
-    `len(vcf_record.alts)` raises `TypeError` when the record has no ALT. -/
+/-- `get_haplotype_snvs`: rows = REF then the ALTs (`alts = vcf_record.alts or ()`: none when ALT is `.`),
+    columns = the SNVPOS sites -/
 def haplotypeSnvs (r : HapRecord) (snvpos : List Nat) : Except Err (List (List Char)) :=
-  match r.alts with
-  | none => .error .typeError
-  | some alts => mapE (fun h => basesAt h snvpos) (r.ref :: alts)
+  mapE (fun h => basesAt h snvpos) (r.ref :: r.alts.getD [])
 
 /-- column `k` of the haplotype × site matrix -/
 def column (hs : List (List Char)) (k : Nat) : List Char := hs.map (fun row => row.getD k ' ')
@@ -120,26 +122,23 @@ def siteAC (siteIdx : List Nat) (hapCounts : List Nat) (nAlts : Nat) : List Nat 
 
 /-! ## ACP / DS -/
 
-/-- per-haplotype posterior counts of one sample: FORMAT/ACP, else FORMAT/AFP × ploidy, else unknown.
-    `.ok none` = the `nan` row; a missing entry (`.`) makes numpy raise `TypeError`; more entries than listed
-    haplotypes is an `IndexError` -/
+/-- a FORMAT array is usable when the key is present and no entry is `.` (`(x is None) or (None in x)`) -/
+def usable (v : Option (List (Option Rat))) : Option (List Rat) :=
+  match v with
+  | none => none
+  | some c => if c.any Option.isNone then none else some (c.map (fun x => x.getD 0))
+
+/-- per-haplotype posterior counts of one sample: FORMAT/ACP when usable, else FORMAT/AFP × ploidy when usable,
+    else unknown (`.ok none` = the `nan` row); more entries than listed haplotypes is an `IndexError` -/
 def sampleCounts (nHap : Nat) (s : Sample) : Except Err (Option (List Rat)) :=
   let ploidy : Rat := (s.gt.length : Rat)
-  let src : Option (List (Option Rat) × Rat × Bool) :=
-    match s.acp with
-    | some c => some (c, 1, false)
-    | none => match s.afp with
-      | some f => some (f, ploidy, true)
-      | none => none
+  let src : Option (List Rat) :=
+    match usable s.acp with
+    | some c => some c
+    | none => (usable s.afp).map (fun f => f.map (· * ploidy))
   match src with
   | none => .ok none
-  | some (c, scale, fromAfp) =>
-    if fromAfp && c.any Option.isNone then .error .typeError     -- `np.array(freqs) * ploidy`
-    else if c.length > nHap then
-      -- the loop reaches index `nHap` unless a `None` is met first
-      if (c.take nHap).any Option.isNone then .error .typeError else .error .indexError
-    else if c.any Option.isNone then .error .typeError
-    else .ok (some (c.map (fun x => x.getD 0 * scale)))
+  | some c => if c.length > nHap then .error .indexError else .ok (some c)
 
 /-- `get_sample_snv_ACP` for one sample and site: marginalise, normalise to the ploidy (`nan` = `none` when the
     sample has no counts or they sum to zero); 4 allele slots per site -/
@@ -164,7 +163,7 @@ structure SnvLine where
   dp : Option Rat                             -- INFO/DP
   ps : Nat                                    -- INFO/PS
   gts : List (List (Option Nat))              -- per sample, phased
-  pq : List (Option Int)                      -- FORMAT/PQ per sample (`none` is printed as the text `None`)
+  pq : List (Option Int)                      -- FORMAT/PQ per sample (`none` is printed as `.`)
   sdp : List (Option Rat)                     -- FORMAT/DP per sample
   ds : List (List (Option Rat))               -- FORMAT/DS per sample, A entries
   deriving Repr, DecidableEq
@@ -210,8 +209,8 @@ def blockLines (r : HapRecord) (snvpos : List Nat) (hs : List (List Char)) (gts 
 
 /-- `format_vcf_snv_block`: `.ok none` when the record has no SNV (`SNVPOS=.`), else all lines of the block or
     the exception that aborts the program.  The steps fail in the code's order: `get_haplotype_snvs`,
-    `get_sample_snv_GT`, `get_sample_snv_ACP`, `format_allele_floats(…, "A")` on an empty allele axis,
-    `get_sample_snv_depth`. -/
+    `get_sample_snv_GT`, `get_sample_snv_ACP`, `get_sample_snv_depth`.  A site without alternative base has
+    `alts = []`, `ac = []`, `ds = [[] …]` (all printed as `.`) and a one-entry `acp`. -/
 def block (r : HapRecord) : Except Err (Option (List SnvLine)) :=
   match r.snvpos with
   | none => .ok none
@@ -230,11 +229,8 @@ def block (r : HapRecord) : Except Err (Option (List SnvLine)) :=
               mapE (fun sc => sampleSiteACP siteIdx sc.1.gt.length sc.2) (r.samples.zip counts)) idxs with
           | .error e => .error e
           | .ok acp =>
-            if (List.range snvpos.length).any (fun k => (formatSnvAlleles hs k).2.length == 0) then
-              .error .indexError
-            else
-              match depths snvpos.length r.samples with
-              | .error e => .error e
-              | .ok dps => .ok (some (blockLines r snvpos hs gts acp dps))
+            match depths snvpos.length r.samples with
+            | .error e => .error e
+            | .ok dps => .ok (some (blockLines r snvpos hs gts acp dps))
 
 end MCHap.Atomize
